@@ -30,7 +30,7 @@ class InjectedAbort(RuntimeError):
     pass
 
 
-CONSTRUCTS = ["unregistered_prim", "switch3", "switch3_const_index", "reverse_scan", "fori_traced_bounds",
+CONSTRUCTS = ["unregistered_prim", "switch3", "switch3_const_index", "reverse_scan", "reverse_scan_no_xs", "reverse_scan_carry_only", "fori_traced_bounds",
               "while_traced_trip_in_fori", "dim_no_origin", "dynamic_mask", "argsort_unstable_variant"]
 PLACEMENTS = ["top", "cond", "while", "fori", "scan", "fn", "cond/while", "fori/cond", "fn/scan", "scan/fn"]
 
@@ -58,6 +58,16 @@ def _construct(kind: str) -> Tuple[Callable, bool]:
             carry, ys = lax.scan(step, jnp.zeros((3,), x.dtype), x, reverse=True)
             return ys + carry
         return u, False
+    if kind == "reverse_scan_no_xs":
+        def u(x, k):
+            def step(c, _):
+                n = c * 2.0 + 1.0
+                return n, jnp.sum(n)
+            carry, ys = lax.scan(step, x, None, length=3, reverse=True)
+            return carry + ys[0] * 0.5 + ys[2] * 0.25
+        return u, False
+    if kind == "reverse_scan_carry_only":
+        return (lambda x, k: lax.scan(lambda c, _: (c * 2.0 + 1.0, None), x, None, length=3, reverse=True)[0]), False
     if kind == "fori_traced_bounds":
         return (lambda x, k: lax.fori_loop(0, k, lambda i, c: c * 2.0 + 1.0, x)), True
     if kind == "while_traced_trip_in_fori":
